@@ -184,7 +184,7 @@ var interpretable = map[string]bool{
 	"unicode": true, "unicode/utf8": true, "unicode/utf16": true, "io": true, "context": true,
 	"path": true, "maps": true, "cmp": true, "net/url": true, "net/http": true, "net/textproto": true,
 	"internal/stringslite": true, "internal/bytealg": true, "iter": true, "math": true, "math/bits": true,
-	"internal/itoa": true, "strconv": true, "internal/godebug": false,
+	"internal/itoa": true, "strconv": true, "time": true, "internal/godebug": false,
 	"github.com/go-openapi/jsonpointer": true, "github.com/gorilla/mux": true,
 	"vendor/golang.org/x/net/http/httpguts": true, "mime": true, "mime/multipart": true, "mime/quotedprintable": true, "bufio": true, "vendor/golang.org/x/net/http/httpproxy": false,
 }
@@ -507,6 +507,10 @@ func (i *interpreter) initForeignGlobal(g *ssa.Global, cell *value) {
 						}
 					}
 				}
+			case *ssa.Global:
+				// var X = &otherVar (time.UTC = &utcLoc)
+				*cell = i.global(v)
+				return
 			case *ssa.Alloc:
 				// var X = &T{...}: a zero T (field initialisers are not replayed; such
 				// objects are only passed around by the repository, never inspected)
@@ -560,6 +564,11 @@ func (i *interpreter) initForeignGlobal(g *ssa.Global, cell *value) {
 			switch v := in.(type) {
 			case *ssa.UnOp:
 				continue // a load of the variable
+			case *ssa.Store:
+				if v.Addr != ssa.Value(g) {
+					continue // the variable's address stored elsewhere (var UTC = &utcLoc): no effect on its content
+				}
+				panic(unsupported{"initialiser of foreign variable " + g.String()})
 			case *ssa.IndexAddr, *ssa.FieldAddr:
 				refs := in.(ssa.Value).Referrers()
 				if refs == nil {
@@ -605,6 +614,9 @@ func init() {
 	externals["(*internal/godebug.Setting).Value"] = func(fr *frame, a []value) value { return "" }
 	externals["(*internal/godebug.Setting).IncNonDefault"] = func(fr *frame, a []value) value { return nil }
 	externals["(*internal/godebug.Setting).Name"] = func(fr *frame, a []value) value { return "" }
+	// strings are immutable values here: a clone is the string itself
+	externals["internal/stringslite.Clone"] = func(fr *frame, a []value) value { return a[0] }
+	externals["strings.Clone"] = func(fr *frame, a []value) value { return a[0] }
 }
 
 func (i *interpreter) regexpMethod(fr *frame, meth string, args []value) (value, bool) {
